@@ -207,7 +207,9 @@ def rule_read(c, prog):
         c.violation(R, "protected-string", "a <ProtectedString> element is no longer read as Variant::String", rv.sp, instance="ProtectedString->String")
     # base64 sites
     rb = common.find_fn(prog, r"deserializer_core::XmlEventReader.*::read_base64_characters$")
-    ok = any(x.get("k") == "MethodCall" and x["m"] == "filter" for x in core.walk_fn(rb)) and any(x.get("k") == "MethodCall" and x["m"] == "is_whitespace" for x in core.walk_fn(rb))
+    # whitespace removed before decoding: a filter / retain whose predicate is a whitespace test, or a split on whitespace
+    ok = any(x.get("k") == "MethodCall" and x["m"] in ("filter", "retain") and x["args"] and any(y.get("k") == "MethodCall" and y["m"] in ("is_whitespace", "is_ascii_whitespace") for y in core.walk(x["args"][0])) for x in core.walk_fn(rb)) \
+        or any(x.get("k") == "MethodCall" and x["m"] in ("split_whitespace", "split_ascii_whitespace") for x in core.walk_fn(rb))
     if ok:
         c.ok(R, "base64:whitespace-stripped")
     else:
